@@ -5,7 +5,7 @@
 -/
 import FcProps.KTieRaceOkArr
 import FcLemmas.KTieFamEnv
-import FcLemmas.KTieFamLoop
+import FcLemmas.KTieLoopCore
 import FcLemmas.KTieListFacts
 
 set_option linter.unusedSimpArgs false
